@@ -10,6 +10,9 @@ E2 = 'SMT lemmas over kernels translated from /repo source on every run (z3), na
 
 CLAIMED = {
     # id: (design ref, technique, level text, level note)
+    'C03': ('DESIGN.md 4 C03', E1,
+            'Answer sets, per-answer additionals, TTLs and flush marking of QueryHandler.async_response equal a declarative reference responder for every enumerated (registry script, questions, known answers) shape, for all service TTLs 1..2^31-1 and known-answer TTLs 0..2^32-1 (half-TTL boundary solver-decided).',
+            'Trusted: as C05 plus the reference responder in vkit/responder.py. Question types and names are enumerated, not symbolic.'),
     'C05': ('DESIGN.md 4 C05', E1,
             'Every lookup path of DNSCache agrees with a list-based RFC 6762 section 10 model after every event of each enumerated history '
             '(<= 4 events, <= 4 records per datagram), for all TTLs 0..2^32-1, all start instants and all gaps (solver-decided per path); purge reports exactly the elapsed records.',
